@@ -133,6 +133,8 @@ const DIRECTED: &[&str] = &[
     "1 / 0", "1 % 0", "1 << 64", "1 >> -1", "1 << 1.5", "1.5 | 1", "9223372036854775808 & 1", "79228162514264337593543950335 + 1", "79228162514264337593543950335 * 2",
     "0.0000000000000000000000000001 / 10", "x += 1", "x <<= y", "1 = 2", "[a] = 1", "f()", "f(1)()", "x()", "{}()", "{1: 2}[1]", "a.b.c()", "\u{7f}", "a\u{7f}", "12\u{7f}", "f(\u{7f})",
     "a +\u{7f}", "\u{0}", "'\u{0}'", "\u{1}(", "true()", "True (1)", "false ++", "not", "in", "not in", "a not", "a not b", "? :", ": ?", "a ? b ? c : d : e", "- - - - 1", "! ! ! true",
+    "-9223372036854775808 % -1", "a = -9223372036854775808; a %= -1; a", "-9223372036854775808 / -1", "9223372036854775807 + 1 | 0", "a = 1; a <<= 4294967296", "'", "\"", "a + '", "[1, 'two', \"",
+    "f(1, '", "{'k': '", "1 ? '", "x = '",
 ];
 
 pub fn pump_list() {
